@@ -6,6 +6,7 @@
 -/
 import TuModel.Props.C10
 import TuModel.Lemmas.CwMatchL
+import TuModel.Lemmas.CwWitnessL
 namespace Tu.C14
 open Tu Tu.C10
 
@@ -400,5 +401,103 @@ example : corruptWsCl [[97], [98], sp, [99], [100]]
 example : cwAllowed 500 500 [[], [97]] [97] = true := by decide
 example : cwAllowed 500 500 [sp, [97], [98]] [97, 32, 98] = true := by decide
 example : cwAllowed 500 500 [sp, [97], [98]] [32, 32, 97, 98] = false := by decide
+
+/-! ## the witness `cwWitness`: the corrupted cluster list of the first admissible explanation
+
+`cwWitness f s true false out` is what the driver uses to derive the labels of the whitespace-correction task
+(`wsOps inp s` for the returned `inp`).  It is defined exactly where `cwMatch` accepts
+(`cwWitness_isSome_iff`, arbitrary flags); the returned cluster list spells `out` and is an output of the
+function model for a decision list the flags allow (`cwWitness_spec`, consistent flags as for
+`cwMatch_sound_partial`); hence for the probabilities of a request the derived labels are those of a genuine
+corruption (`cwWitness_labels`). -/
+
+/-- the witness exists exactly when the output is accepted -/
+theorem cwWitness_isSome_iff (f : CwFlags) (s : List (List Nat)) (first prevWs : Bool) (out : List Nat) :
+    (cwWitness f s first prevWs out).isSome = cwMatch f s first prevWs out :=
+  Tu.cwWitnessAux_isSome f s first prevWs out
+
+/-- the witness is an output of the function model for a decision list the flags allow, and it spells `out` -/
+theorem cwWitness_spec (f : CwFlags) (hf : f.consistent = true) (s : List (List Nat)) (first prevWs : Bool)
+    (out : List Nat) (inp : List (List Nat)) (h : cwWitness f s first prevWs out = some inp) :
+    inp.flatten = out ∧
+    ∃ ds : List (Bool × Bool), ds.length = s.length ∧ (∀ d ∈ ds, f.allows d = true) ∧
+      corruptWsAux s ds first prevWs = inp :=
+  Tu.cwWitnessAux_spec f hf s first prevWs out inp h
+
+/-- an accepted output has a witness, a refused one has none -/
+theorem cwWitness_of_match (f : CwFlags) (s : List (List Nat)) (first prevWs : Bool) (out : List Nat)
+    (h : cwMatch f s first prevWs out = true) : ∃ inp, cwWitness f s first prevWs out = some inp :=
+  Option.isSome_iff_exists.mp ((cwWitness_isSome_iff f s first prevWs out).trans h)
+
+theorem cwWitness_none_iff (f : CwFlags) (s : List (List Nat)) (first prevWs : Bool) (out : List Nat) :
+    cwWitness f s first prevWs out = none ↔ cwMatch f s first prevWs out = false := by
+  rw [← cwWitness_isSome_iff]
+  cases cwWitness f s first prevWs out <;> simp
+
+/-- for the probabilities of a request: the labels the driver derives are those of a genuine corruption, so on a
+clean text they exist, there is one per character of the corrupted text, and repairing the corrupted text with
+them gives the original text back -/
+theorem cwWitness_labels (iw dw : Nat) (s : List (List Nat)) (hc : CleanB s = true) (out : List Nat)
+    (inp : List (List Nat))
+    (h : cwWitness (CwFlags.ofPermille iw dw) s true false out = some inp) :
+    inp.flatten = out ∧ CleanB inp = true ∧
+    ∃ o, wsOps inp s = some o ∧ o.length = inp.length ∧ repairCl inp o = some s := by
+  obtain ⟨hfl, ds, hl, _, he⟩ :=
+    cwWitness_spec _ (CwFlags.ofPermille_consistent iw dw) s true false out inp h
+  have he' : corruptWsCl s ds = inp := he
+  subst he'
+  exact ⟨hfl, cw_Clean s ds hl hc, cw_recover s ds hl hc⟩
+
+/-- the same, starting from acceptance: every accepted output of a clean text has a witness with these
+properties (this is the situation of the driver: `cwAllowed` has succeeded) -/
+theorem cwAllowed_witness_labels (iw dw : Nat) (s : List (List Nat)) (hc : CleanB s = true) (out : List Nat)
+    (h : cwAllowed iw dw s out = true) :
+    ∃ inp, cwWitness (CwFlags.ofPermille iw dw) s true false out = some inp ∧
+      inp.flatten = out ∧ CleanB inp = true ∧ removeWsCl inp = removeWsCl s ∧
+      ∃ o, wsOps inp s = some o ∧ o.length = inp.length ∧ repairCl inp o = some s := by
+  obtain ⟨inp, hi⟩ := cwWitness_of_match _ s true false out h
+  obtain ⟨hfl, ds, hl, _, he⟩ :=
+    cwWitness_spec _ (CwFlags.ofPermille_consistent iw dw) s true false out inp hi
+  have he' : corruptWsCl s ds = inp := he
+  subst he'
+  exact ⟨_, hi, hfl, cw_Clean s ds hl hc, cw_nonws s ds hl, cw_recover s ds hl hc⟩
+
+/-! non-vacuity of the witness: the clean two-word text "ab cd" -/
+/-- a space inserted before `b` -/
+example : cwWitness (CwFlags.ofPermille 500 500) [[97], [98], sp, [99], [100]] true false
+    [97, 32, 98, 32, 99, 100] = some [[97], sp, [98], sp, [99], [100]] := by decide
+/-- the space deleted -/
+example : cwWitness (CwFlags.ofPermille 500 500) [[97], [98], sp, [99], [100]] true false
+    [97, 98, 99, 100] = some [[97], [98], [99], [100]] := by decide
+/-- identity -/
+example : cwWitness (CwFlags.ofPermille 500 500) [[97], [98], sp, [99], [100]] true false
+    [97, 98, 32, 99, 100] = some [[97], [98], sp, [99], [100]] := by decide
+/-- a refused output (double space) has no witness -/
+example : cwWitness (CwFlags.ofPermille 500 500) [[97], [98], sp, [99], [100]] true false
+    [97, 98, 32, 32, 99, 100] = none := by decide
+/-- the labels derived from the two witnesses, and the repair -/
+example : wsOps [[97], sp, [98], sp, [99], [100]] [[97], [98], sp, [99], [100]] =
+    some [.keep, .delete, .keep, .keep, .keep, .keep] := by decide
+example : wsOps [[97], [98], [99], [100]] [[97], [98], sp, [99], [100]] =
+    some [.keep, .keep, .insert, .keep] := by decide
+example : repairCl [[97], [98], [99], [100]] [.keep, .keep, .insert, .keep] =
+    some [[97], [98], sp, [99], [100]] := by decide
+/-- several explanations (text "a  b" with two separators, one of them deleted): the first admissible one,
+which deletes the FIRST separator, is returned; both explanations give the same cluster list -/
+example : cwWitness (CwFlags.ofPermille 500 500) [[97], sp, sp, [98]] true false [97, 32, 98] =
+    some [[97], sp, [98]] := by decide
+/-- "ab" → "a b": only by insertion -/
+example : cwWitness (CwFlags.ofPermille 500 500) [[97], [98]] true false [97, 32, 98] =
+    some [[97], sp, [98]] := by decide
+/-- empty clusters count as white space and may vanish or stay: two explanations with DIFFERENT cluster
+lists (same code points); the first admissible one (deletion, if the delete probability is > 0) is returned.
+Then a text starting with white space. -/
+example : cwWitness (CwFlags.ofPermille 500 500) [[], [97]] true false [97] = some [[97]] := by decide
+example : cwWitness (CwFlags.ofPermille 500 0) [[], [97]] true false [97] = some [[], [97]] := by decide
+example : cwWitness (CwFlags.ofPermille 500 500) [sp, [97], [98]] true false [97, 32, 98] =
+    some [[97], sp, [98]] := by decide
+example : cwWitness (CwFlags.ofPermille 500 500) [sp, [97], [98]] true false [32, 32, 97, 98] = none := by
+  decide
+
 
 end Tu.C14
